@@ -19,6 +19,7 @@ import sympy as sp
 
 from .common import *  # noqa
 from .readerlib import *  # noqa
+from .common import tri as TRI      # `tri` is the triclinic flag inside check_config
 
 
 def run(run: Run, pkg: Package) -> None:
@@ -58,12 +59,14 @@ def check_config(run, pkg, fname, ndim, tri, style):
     # ---------------- protocol
     nh = len(rr.header_ids)
     run.ob("R-PROTO", fq, f"{cfg}:header-lines", nh == 9, "nine header lines are consumed before the atom block (the third bounds line also in 2D)",
-           f"{nh} header lines read", witness=None if nh == 9 else f"{cfg}: header of 9 lines, reader consumes {nh}: atom block / next frame misaligned", loc=loc)
+           f"{nh} header lines read", witness=None if nh == 9 else f"{cfg}: header of 9 lines, reader consumes {nh}: atom block / next frame misaligned", loc=loc,
+           sound=not _other_reads(rr))     # every readline() outside the atom loop on this configuration's path, counted exactly
     na = len(rr.atom_ids)
     if na != 1:
-        run.ob("R-SIB", fq, f"{cfg}:atom-branch", False if na == 0 else None, f"coordinate style '{style}' of a {'triclinic' if tri else 'orthogonal'} cell has an atom-reading branch",
+        # definite only when nothing else on this path could consume the atom block (comprehensions, bulk readers, iteration over the handle)
+        run.ob("R-SIB", fq, f"{cfg}:atom-branch", False if (na == 0 and not _other_reads(rr)) else None, f"coordinate style '{style}' of a {'triclinic' if tri else 'orthogonal'} cell has an atom-reading branch",
                "no atom line is read: positions stay at the zero initialiser and the atom block is left in the stream" if na == 0 else f"{na} atom-line reads",
-               witness=f"{cfg} dump: all positions 0 and the following frame is parsed from the middle of the atom block" if na == 0 else None, loc=loc)
+               witness=f"{cfg} dump: all positions 0 and the following frame is parsed from the middle of the atom block" if na == 0 else None, loc=loc, sound=True)
         if na == 0:
             return
     else:
@@ -71,29 +74,33 @@ def check_config(run, pkg, fname, ndim, tri, style):
     kws = rr.kwargs()
     # EOF sentinel
     ok_eof = any(r.guards and not r.loops for r in rr.none_rets)
-    run.ob("R-PROTO", fq, f"{cfg}:eof", ok_eof, "an empty first line ends the frame sequence (returns the falsy sentinel)",
+    run.ob("R-PROTO", fq, f"{cfg}:eof", True if ok_eof else None, "an empty first line ends the frame sequence (returns the falsy sentinel)",
            f"{len(rr.none_rets)} None-returns", witness=None if ok_eof else "no EOF sentinel", loc=loc)
     for field, line in (("timestep", 1), ("nparticle", 3)):
         e, at = tr(ae.deep(kws[field]))
         ok = e == sp.Symbol(f"L{line}_0", real=True)
         run.ob("R-PROTO", fq, f"{cfg}:{field}", ok if (ok or not at) else None, f"{field} is the integer on header line {line + 1}", f"{sp.sstr(e)[:60]}",
-               witness=None if ok else f"{field} read from {sp.sstr(e)[:40]}", loc=loc)
+               witness=None if ok else f"{field} read from {sp.sstr(e)[:40]}", loc=loc, sound=True)
     # names come from header line 9
     asked = [c for c in rr.asked if c[2][1] in ("x", "xs", "xu")]
-    ok_names = bool(asked)
+    ok_names = True if asked else None
     for c in asked:
         nm = c[3]
-        good = nm[0] == "sub" and nm[2] == ("slice", C(2), NONE, NONE) and nm[1][0] == "call" and nm[1][1] == ".split" and rr.line_of(nm[1][2][0]) == 8
-        ok_names = ok_names and good
+        if nm[0] == "sub" and nm[2][0] == "slice" and nm[1][0] == "call" and nm[1][1] == ".split" and nm[1][2] and rr.line_of(nm[1][2][0]) is not None:
+            # a constant slice of the tokens of an identified header line: compared exactly
+            good = TRI(eqv(nm[2], ("slice", C(2), NONE, NONE)), rr.line_of(nm[1][2][0]) == 8)
+        else:
+            good = None
+        ok_names = TRI(ok_names, good)
     run.ob("R-PROTO", fq, f"{cfg}:names", ok_names, "coordinate style is taken from the column names after 'id type' on header line 9",
-           f"{len(asked)} style tests", witness=None if ok_names else "style detected from another line / column offset", loc=loc)
+           f"{len(asked)} style tests", witness=None if ok_names else "style detected from another line / column offset", loc=loc, sound=True)
     # atom loop domain
     Lid = rr.atom_loops[0]
     L = rr.it.loops[Lid]
     e, at = tr(ae.deep(L.iter[2][0])) if L.iter and L.iter[0] == "call" and L.iter[1] == "builtins.range" and len(L.iter[2]) == 1 else (None, True)
-    ok_dom = e == sp.Symbol("L3_0", real=True)
+    ok_dom = True if (e is not None and e == sp.Symbol("L3_0", real=True)) else (False if (e is not None and not at) else None)
     run.ob("R-LOOPDOM", fq, f"{cfg}:atoms", ok_dom, "exactly N atom lines are read per frame", show(strip_alloc(L.iter))[:60] if L.iter else "?",
-           witness=None if ok_dom else "atom block length differs from the declared particle number", loc=loc)
+           witness=None if ok_dom else "atom block length differs from the declared particle number", loc=loc, sound=True)
     # ---------------- cell
     ref = reference_cell(ndim, tri)
 
@@ -106,13 +113,13 @@ def check_config(run, pkg, fname, ndim, tri, style):
         ok, how = eq(g, want)
         if ok is False and at:
             ok = None
-        return run.ob(rule, fq, key, ok, what, f"code: {sp.sstr(g)[:140]}", witness=None if ok is not False else how, loc=loc)
+        return run.ob(rule, fq, key, ok, what, f"code: {sp.sstr(g)[:140]}", witness=None if ok is not False else how, loc=loc, sound=True)   # exact expression in file tokens, rational witness
 
     def shape_ok(name, term, want):
         shp = ae.shape(term)
         ok = shp == want
         run.ob("R-ALG", fq, f"{cfg}:{name}:shape", ok if shp is not None else None, f"{name} has shape {want}", f"shape {shp}",
-               witness=None if ok else f"{name} has shape {shp}", loc=loc)
+               witness=None if ok else f"{name} has shape {shp}", loc=loc, sound=True)
         return ok
     if shape_ok("boxbounds", kws["boxbounds"], (ndim, 2)):
         for r in range(ndim):
@@ -133,7 +140,7 @@ def check_config(run, pkg, fname, ndim, tri, style):
                     cmp_entry("R-ALG", f"{cfg}:realbounds[{r},{c}]", f"real {'lo' if c == 0 else 'hi'} of axis {r} = bound - {'min' if c == 0 else 'max'}(0, tilt combinations)",
                               kws["realbounds"], (r, c), ref["real"][r][c])
     else:
-        run.ob("R-ALG", fq, f"{cfg}:realbounds", kws["realbounds"] == NONE, "orthogonal cells carry no separate real bounds", show(kws["realbounds"])[:40],
+        run.ob("R-ALG", fq, f"{cfg}:realbounds", True if kws["realbounds"] == NONE else None, "orthogonal cells carry no separate real bounds", show(kws["realbounds"])[:40],
                witness=None if kws["realbounds"] == NONE else "realbounds set for an orthogonal cell", loc=loc)
     # ---------------- placement by id
     P = kws["positions"]
@@ -153,12 +160,12 @@ def check_config(run, pkg, fname, ndim, tri, style):
             if not ok and at and all(x[0] == "loopvar" and x[1] == Lid for x in walk(ae.deep(row)) if x[0] in ("loopvar", "sub", "call", "sym")):
                 at = {}     # row index built from the atom-loop counter only: file order, definitely not the id
             run.ob("R-IDX", fq, f"{cfg}:{nm}:row@{key_of(ev)[:40]}", ok if (ok or not at) else None, f"{nm} row index is (atom id) - 1", f"row index {sp.sstr(g)[:60]}",
-                   witness=None if ok else f"atoms listed out of id order are stored at row {sp.sstr(g)[:40]}", loc=loc_of(rr.it, ev))
+                   witness=None if ok else f"atoms listed out of id order are stored at row {sp.sstr(g)[:40]}", loc=loc_of(rr.it, ev), sound=True)
     try:
         g, at = tr(ae.entry(T, (ROW,)))
         ok = g == a[1]
         run.ob("R-IDX", fq, f"{cfg}:type", ok if (ok or not at) else None, "particle type is column 2 of the atom line", sp.sstr(g)[:60],
-               witness=None if ok else f"type read from {sp.sstr(g)[:40]}", loc=loc)
+               witness=None if ok else f"type read from {sp.sstr(g)[:40]}", loc=loc, sound=True)
     except (NoEntry, IndexError, TypeError) as ex:
         run.ob("R-IDX", fq, f"{cfg}:type", None, "particle type is column 2", str(ex), loc=loc)
     # ---------------- positions
@@ -174,17 +181,32 @@ def check_config(run, pkg, fname, ndim, tri, style):
             g, at = tr(ent)
             ok, how = eq(g, p_c)
             run.ob("R-ALG", fq, key, ok if not (ok is False and at) else None, f"component {c} is column {3 + c} of the atom line, verbatim", sp.sstr(g)[:100],
-                   witness=None if ok is not False else how, loc=loc)
+                   witness=None if ok is not False else how, loc=loc, sound=True)
         elif style == "xs":
             want = ref["lo"][c] + sum(a[2 + k] * ref["H"][k][c] for k in range(ndim))
             g, at = tr(ent)
             ok, how = eq(g, want)
             run.ob("R-ALG", fq, key, ok if not (ok is False and at) else None,
                    f"component {c} = real lower corner + sum_k s_k * hmatrix[k][{c}] (scaled coordinates mapped through the cell incl. its origin)",
-                   f"code: {sp.sstr(g)[:160]}", witness=None if ok is not False else how, loc=loc)
+                   f"code: {sp.sstr(g)[:160]}", witness=None if ok is not False else how, loc=loc, sound=True)
         else:
             ok, det, wit = match_wrap(ent, tr, p_c, ref["lo"][c], ref["hi"][c], ref["L"][c])
-            run.ob("R-ALG", fq, key, ok, f"wrapped component {c}: + L if below lo, - L if above hi, else unchanged", det, witness=wit, loc=loc)
+            run.ob("R-ALG", fq, key, ok, f"wrapped component {c}: + L if below lo, - L if above hi, else unchanged", det, witness=wit, loc=loc, sound=True)
+
+
+def _other_reads(rr) -> bool:
+    """anything besides plain readline() calls that could consume lines of the handle on this path"""
+    for ev in rr.it.events:
+        for v in ev.data.values():
+            if not isinstance(v, tuple):
+                continue
+            for x in walk(v):
+                if x[0] == "comp" and any(y[0] == "call" and y[1] == ".readline" for y in walk(x)):
+                    return True
+                if x[0] == "call" and isinstance(x[1], str) and x[1] in (".readlines", ".read", "numpy.loadtxt", "numpy.genfromtxt", "numpy.fromfile", "numpy.fromstring",
+                                                                          "itertools.islice", "builtins.next", ".__next__", "pandas.read_csv", "builtins.list", "builtins.iter"):
+                    return True
+    return any(L.iter == ("sym", "f") for L in rr.it.loops.values())
 
 
 def root_alloc(t: Term) -> Optional[Term]:
@@ -289,33 +311,33 @@ def check_wrapper(run, pkg, wname, inner):
         raise AnalysisError(f"{fq}: expected one call of {inner}")
     ce = cs[0]
     ok_loop = len(ce.loops) == 1 and it.loops[ce.loops[0]].kind == "while"
-    run.ob("R-LOOPDOM", fq, "frame-loop", ok_loop, "frames are read in a loop until the sentinel", f"loops {ce.loops}",
+    run.ob("R-LOOPDOM", fq, "frame-loop", True if ok_loop else None, "frames are read in a loop until the sentinel", f"loops {ce.loops}",
            witness=None if ok_loop else "only the first frame is read", loc=loc_of(it, ce))
     opened = [e for e in it.events if e.kind == "with" and e.data["value"][0] == "call" and e.data["value"][1] == "builtins.open"]
     handle = ce.data["call"][2][0] if ce.data["call"][2] else None
     ok_h = len(opened) == 1 and not opened[0].loops and handle == opened[0].data["value"]
-    run.ob("R-HANDLE", fq, "handle", ok_h, "one handle opened before the loop is passed to every frame read",
-           show(handle)[:60] if handle else "?", witness=None if ok_h else "file reopened per frame: the first frame is read repeatedly", loc=loc_of(it, ce))
+    run.ob("R-HANDLE", fq, "handle", True if ok_h else (False if (handle is not None and handle[0] == "call" and handle[1] == "builtins.open" and ce.loops) else None), "one handle opened before the loop is passed to every frame read",
+           show(handle)[:60] if handle else "?", witness=None if ok_h else "file reopened per frame: the first frame is read repeatedly", loc=loc_of(it, ce), sound=True)
     params = pkg.func(target).params
     args = list(ce.data["call"][2]) + [v for _, v in ce.data["call"][3]]
     ok_args = args[1:] == [("sym", p) for p in params[1:]] and params[1:] == fi.params[1:]
-    run.ob("R-DISPATCH", fq, "arguments", ok_args, f"wrapper forwards its parameters {fi.params[1:]} to {inner} in order", [show(a_) for a_ in args[1:]],
+    run.ob("R-DISPATCH", fq, "arguments", True if ok_args else None, f"wrapper forwards its parameters {fi.params[1:]} to {inner} in order", [show(a_) for a_ in args[1:]],
            witness=None if ok_args else "dimension / selection arguments not forwarded", loc=loc_of(it, ce))
     snap = ce.data["result"]
     brk = [e for e in it.events if e.kind == "break"]
     ok_b = len(brk) == 1 and any(g == ("un", "not", snap) and pol for g, pol in brk[0].guards) and brk[0].seq > ce.seq
-    run.ob("R-LOOPDOM", fq, "sentinel", ok_b, "the loop ends exactly when the reader returns the falsy sentinel", [show(g)[:40] for g, _ in brk[0].guards] if brk else "no break",
+    run.ob("R-LOOPDOM", fq, "sentinel", True if ok_b else None, "the loop ends exactly when the reader returns the falsy sentinel", [show(g)[:40] for g, _ in brk[0].guards] if brk else "no break",
            witness=None if ok_b else "loop does not stop at EOF / stops early", loc=fi.loc())
     if ok_b:
         # `not snapshot` is a truthiness test: a frame object must be truthy whatever it holds
         ci = pkg.cls("reader.reader_utils.SingleSnapshot")
         falsy = [m for m in ("__bool__", "__len__") if m in ci.methods]
-        run.ob("R-LOOPDOM", fq, "sentinel-truthiness", not falsy, "the sentinel test relies on frame objects always being truthy: SingleSnapshot defines neither __bool__ nor __len__",
+        run.ob("R-LOOPDOM", fq, "sentinel-truthiness", True if not falsy else None, "the sentinel test relies on frame objects always being truthy: SingleSnapshot defines neither __bool__ nor __len__",
                f"defines {falsy}" if falsy else "plain dataclass", witness=None if not falsy else
                "a frame with NUMBER OF ATOMS 0 (empty dump group) is falsy: it and every later frame are silently dropped", loc=ci.module.relpath + f":{ci.node.lineno}")
     app = [e for e in it.events if e.kind == "call" and e.data["call"][1] == ".append" and e.loops == ce.loops]
     ok_a = len(app) == 1 and app[0].data["call"][2][1] == snap and app[0].seq > (brk[0].seq if brk else -1)
-    run.ob("R-LOOPDOM", fq, "append", ok_a, "every frame read is appended once, in read order", f"{len(app)} appends",
+    run.ob("R-LOOPDOM", fq, "append", True if ok_a else None, "every frame read is appended once, in read order", f"{len(app)} appends",
            witness=None if ok_a else "frames dropped / duplicated / sentinel appended", loc=fi.loc())
     augs = [e for e in it.events if e.kind == "aug" and e.loops == ce.loops]
     ok_c = len(augs) == 1 and augs[0].data["op"] == "+" and augs[0].data["value"] == C(1) and augs[0].seq > (brk[0].seq if brk else -1)
@@ -332,10 +354,14 @@ def check_wrapper(run, pkg, wname, inner):
         ok_cnt = (ok_c and n_t == augs[0].data["new"]) or (n_t[0] == "call" and n_t[1] == "builtins.len" and n_t[2][0] == kw_["snapshots"])
         init_zero = ok_c and augs[0].data["old"][0] == "mu" and augs[0].data["old"][3] == C(0)
         ok_cnt = ok_cnt and (init_zero or n_t[0] == "call")
-    run.ob("R-LOOPDOM", fq, "count", ok_r and ok_cnt, "nsnapshots equals the number of appended frames (starts at 0, +1 per append)",
-           show(kw_.get("nsnapshots", NONE))[:60], witness=None if ok_r and ok_cnt else "frame count differs from the list length", loc=fi.loc())
+    okcount = True if (ok_r and ok_cnt) else None
+    if okcount is None and ok_r and ok_b and len(augs) == 1 and augs[0].data["op"] == "+" and augs[0].data["value"] == C(1) and ce.seq < augs[0].seq < brk[0].seq \
+            and kw_["nsnapshots"] == augs[0].data["new"]:
+        okcount = False        # the counter is advanced before the sentinel test: the failed read at end of file is counted as a frame
+    run.ob("R-LOOPDOM", fq, "count", okcount, "nsnapshots equals the number of appended frames (starts at 0, +1 per append)",
+           show(kw_.get("nsnapshots", NONE))[:60], witness=None if ok_r and ok_cnt else "frame count differs from the list length (one more than the frames appended)", loc=fi.loc(), sound=True)
     ok_l = ok_r and app and kw_["snapshots"][0] == "appended" and kw_["snapshots"][2] == snap
-    run.ob("R-LOOPDOM", fq, "list", bool(ok_l), "the returned list is the one the frames were appended to", show(kw_.get("snapshots", NONE))[:60],
+    run.ob("R-LOOPDOM", fq, "list", True if ok_l else None, "the returned list is the one the frames were appended to", show(kw_.get("snapshots", NONE))[:60],
            witness=None if ok_l else "another list returned", loc=fi.loc())
 
 
@@ -362,17 +388,19 @@ def check_dispatch(run, pkg):
     dyn = [e for e in it.events if e.kind == "call" and isinstance(e.data["call"][1], tuple)]
     ok_call = len(dyn) == 1 and dyn[0].data["call"][1][1][0] == "sub" and dyn[0].data["call"][1][1][1][0] == "global" \
         and dyn[0].data["call"][1][1][2] == ("attr", ("sym", "self"), "filetype")
-    run.ob("R-DISPATCH", fq, "table-call", ok_call, "the reader is selected by FILE_TYPE_MAP_READER[self.filetype]", show(dyn[0].data["call"][1][1])[:80] if dyn else "?",
+    run.ob("R-DISPATCH", fq, "table-call", True if ok_call else None, "the reader is selected by FILE_TYPE_MAP_READER[self.filetype]", show(dyn[0].data["call"][1][1])[:80] if dyn else "?",
            witness=None if ok_call else "reader not selected by file type", loc=fi.loc())
     for m in members:
         key = f"member {m}"
         if m not in table:
-            run.ob("R-DISPATCH", fq, key, False, f"DumpFileType.{m} has a reader", "missing from FILE_TYPE_MAP_READER", witness=f"filetype={m}: KeyError", loc=fi.loc())
+            run.ob("R-DISPATCH", fq, key, False if ok_call else None, f"DumpFileType.{m} has a reader", "missing from FILE_TYPE_MAP_READER", witness=f"filetype={m}: KeyError", loc=fi.loc(), sound=True)
             continue
         wq = table[m]
         okw = wq is not None and wq in pkg.functions and (m not in want or wq.endswith("." + want[m]))
-        run.ob("R-DISPATCH", fq, key, okw, f"DumpFileType.{m} is read by {want.get(m, 'its wrapper')}", f"mapped to {short(wq) if wq else None}",
-               witness=None if okw else f"filetype={m} is parsed by {short(wq) if wq else None}", loc=fi.loc())
+        # definite: the member is routed to the wrapper that belongs to another member
+        okw_ = True if okw else (False if (wq is not None and m in want and any(wq.endswith("." + w_) for m2, w_ in want.items() if m2 != m)) else None)
+        run.ob("R-DISPATCH", fq, key, okw_, f"DumpFileType.{m} is read by {want.get(m, 'its wrapper')}", f"mapped to {short(wq) if wq else None}",
+               witness=None if okw else f"filetype={m} is parsed by {short(wq) if wq else None}", loc=fi.loc(), sound=True)
         if not okw or wq not in pkg.functions:
             continue
         # keys provided for this member
@@ -393,21 +421,30 @@ def check_dispatch(run, pkg):
                 for k_, v_ in base[1]:
                     if is_const(k_):
                         provided[k_[1]] = v_
+        uncertain = base is None
         for e in stores(it):
-            if base is not None and e.data["target"][1] == base and is_const(e.data["target"][2]):
-                if guard_eval(e.guards, lambda c: eval_bool(c, leaf)) is True:
+            if base is not None and e.data["target"][1] == base:
+                if not is_const(e.data["target"][2]):
+                    uncertain = True
+                    continue
+                ge = guard_eval(e.guards, lambda c: eval_bool(c, leaf))
+                if ge is True:
                     provided[e.data["target"][2][1]] = e.data["value"]
+                elif ge is None:
+                    uncertain = True
+        if any(e.kind == "call" and e.data["call"][1] in (".update", ".setdefault", ".pop") and e.data["call"][2] and e.data["call"][2][0] == base for e in it.events):
+            uncertain = True
         wf = pkg.functions[wq]
         required = [p for p in wf.params if p not in wf.defaults()]
         missing = [p for p in required if p not in provided]
         extra = [k_ for k_ in provided if k_ not in wf.params]
-        okp = not missing and not extra
+        okp = True if (not missing and not extra) else (None if uncertain else False)     # exact set comparison of the keys stored for this member
         run.ob("R-DISPATCH", fq, key + ":kwargs", okp, f"{want.get(m, m)} receives exactly its parameters {wf.params}", f"provided {sorted(provided)}",
-               witness=None if okp else f"filetype={m}: TypeError (missing {missing}, unexpected {extra})", loc=fi.loc())
+               witness=None if okp else f"filetype={m}: TypeError (missing {missing}, unexpected {extra})", loc=fi.loc(), sound=True)
         for p_, src in (("file_name", "filename"), ("ndim", "ndim"), ("moltypes", "moltypes"), ("columnsids", "columnsids")):
             if p_ in provided and p_ in wf.params:
                 got = expand_self(provided[p_], attrs)
-                okv = got == ("sym", src)
+                okv = eqv(got, ("sym", src))
                 run.ob("R-DISPATCH", fq, key + f":{p_}", okv, f"{p_} is the value the user gave as '{src}'", show(got)[:40],
-                       witness=None if okv else f"{p_} receives {show(got)[:30]}", loc=fi.loc())
+                       witness=None if okv else f"{p_} receives {show(got)[:30]}", loc=fi.loc(), sound=True)
     run.minimum("R-DISPATCH", 15)
